@@ -74,6 +74,10 @@ func (s *Solver) start() error {
 	}
 	s.in = in
 	s.out = bufio.NewReaderSize(out, 1<<16)
+	if lp := os.Getenv("VERIF_SMTLOG"); lp != "" && s.log == nil {
+		f, _ := os.Create(fmt.Sprintf("%s.%d", lp, os.Getpid()))
+		s.log = f
+	}
 	s.emitted = s.emitted[:0]
 	s.declared = s.declared[:0]
 	s.nEmitted = 0
@@ -173,15 +177,16 @@ func (s *Solver) Check(lits []*Term, wantModel bool, nvars int) (Result, []uint6
 			s.emit(s.st.vars[i].term)
 		}
 	}
-	s.buf.WriteString("(check-sat-assuming (")
+	s.buf.WriteString("(push 1)\n")
 	for _, l := range lits {
 		if l.op == OpConst {
 			continue
 		}
+		s.buf.WriteString("(assert ")
 		s.buf.WriteString(termRef(l))
-		s.buf.WriteString(" ")
+		s.buf.WriteString(")\n")
 	}
-	s.buf.WriteString("))\n")
+	s.buf.WriteString("(check-sat)\n")
 	if err := s.flush(); err != nil {
 		s.errors++
 		s.lastErr = err.Error()
@@ -197,13 +202,16 @@ func (s *Solver) Check(lits []*Term, wantModel bool, nvars int) (Result, []uint6
 	switch line {
 	case "unsat":
 		s.unsat++
+		s.buf.WriteString("(pop 1)\n")
 		return Unsat, nil
 	case "sat":
 		s.sat++
 		if !wantModel || nvars == 0 {
+			s.buf.WriteString("(pop 1)\n")
 			return Sat, nil
 		}
 		m, err := s.getValues(nvars)
+		s.buf.WriteString("(pop 1)\n")
 		if err != nil {
 			s.errors++
 			s.lastErr = "model: " + err.Error()
@@ -211,6 +219,7 @@ func (s *Solver) Check(lits []*Term, wantModel bool, nvars int) (Result, []uint6
 		}
 		return Sat, m
 	default:
+		s.buf.WriteString("(pop 1)\n")
 		if strings.HasPrefix(line, "(error") {
 			s.errors++
 			s.lastErr = line
